@@ -18,7 +18,8 @@ type unaryNegation struct {
 	next model.VectorOperator
 	once sync.Once
 
-	series []labels.Labels
+	series     []labels.Labels
+	duplicates *model.DuplicateLabelCheck
 
 	workers worker.Group
 }
@@ -58,6 +59,8 @@ func (u *unaryNegation) loadSeries(ctx context.Context) error {
 		lbls := labels.NewBuilder(vectorSeries[i]).Del(labels.MetricName).Labels(nil)
 		u.series[i] = lbls
 	}
+	// Dropping the metric name can make two series indistinguishable.
+	u.duplicates = model.NewDuplicateLabelCheck(u.series)
 
 	u.workers.Start(ctx)
 	return nil
@@ -90,6 +93,9 @@ func (u *unaryNegation) Next(ctx context.Context) ([]model.StepVector, error) {
 		return nil, nil
 	}
 	for i, vector := range in {
+		if err := u.duplicates.Check(vector); err != nil {
+			return nil, err
+		}
 		if err := u.workers[i].Send(0, vector); err != nil {
 			return nil, err
 		}
